@@ -119,6 +119,9 @@ def cmd_confirm(prop, n, wt):
 def cmd_check(prop, n, extra):
     m = load(prop, n)
     patch = os.path.join(sd(prop, n), "patch.diff")
+    rebased = os.path.join(sd(prop, n), "patch_rebased.diff")
+    if os.path.exists(rebased):
+        patch = rebased   # same change, rebased onto a later fix: commit touching the same lines
     rc, out, _ = run("git status --porcelain --untracked-files=no", "/repo")
     dirty_before = out.strip()
     rc_a, out_a, _ = run(["git", "apply", patch], "/repo")
